@@ -125,6 +125,13 @@ SEEDED_CHANGES = [
     "notified_problem_users not cleared after a sent Recovery [recovery_ack_only_to_users_sent_a_problem_this_incident]",
     "next_notification := now + interval / 2 [reminder_at_least_interval_after_last_problem]",
     "seeded/C03-1..9 (round 3): all reported with a spec clause, see tools/seeded_auto.json",
+    "seeded/C03-10..12 (round 4): C03-11 (force_next_notification survives a request that reaches no notification object) needed the "
+    "checkable-level operations H (objects detached / attached) and the specification's own force bit "
+    "[forced_only_if_force_next_notification_was_set]",
+    "round 4, own mutations (_work/scratch/c03/mut_*.diff): HA `continue` of the timer handler removed "
+    "[paused_notification_object_sends_nothing]; m_TypeFilterMap[\"Acknowledgement\"] widened "
+    "[delivery_only_if_notification_type_filter_admits, delivery_only_if_user_enabled_period_open_filters_admit]; cold-start stash "
+    "entry stored with force = true [forced_only_if_force_next_notification_was_set, timer part]",
 ]
 
 
@@ -135,14 +142,20 @@ class C03(StdCheck):
                          "dropped_recovery_request_is_a_noop", "no_duplicate_problem",
                          "reminder_only_in_hard_unsuppressed_problem", "reminder_spacing_partial",
                          "reminder_spacing_positive_interval", "reminder_spacing_rearmed", "reminder_interval0_counterexample",
-                         "model_trace_meets_spec_partial", "model_trace_other_clauses", "model_trace_meets_spec_counterexample"]
+                         "model_trace_meets_spec_partial", "model_trace_other_clauses", "model_trace_meets_spec_counterexample",
+                         "forced_timer_notifications_are_owed", "forced_bypasses_user_filters", "timer_forced_only_from_stash", "force_is_one_shot", "force_reaches_next_request", "model_trace_meets_spec_positive_interval",
+                         "checkable_trace_refines", "delivery_only_if_checkable", "model_ctrace_meets_spec_partial"]
     technique = ("Lean 4 proof (five independent checkers over the observed trace, each tied to the code's bookkeeping attributes by an "
                  "invariant; composition of BeginExecuteNotification calls incl. the replay of stashed requests; induction over operation "
                  "sequences); correspondence by exhaustive + random differential execution of the path OnNotificationsRequested -> started "
                  "NotificationComponent -> Checkable::SendNotifications -> BeginExecuteNotification (requests injected and requests raised by "
                  "the real ProcessCheckResult / FireSuppressedNotifications) and of NotificationTimerHandler (through the real 5 s timer and "
                  "directly) on real Notification (1-3 per checkable), User, UserGroup, TimePeriod, NotificationCommand, Downtime, Dependency, "
-                 "Host/Service objects under the virtual clock")
+                 "Host/Service objects under the virtual clock; the checkable's side of a request (force_next_notification set by a requester, "
+                 "consumed by every request; notification objects unregistered / registered later) is a second, checkable-level model "
+                 "refined to the one-object model (checkable_trace_refines); filters are configured through `types` / `states` arrays "
+                 "resolved by the real OnConfigLoaded / FilterArrayToInt in two thirds of the objects; timer runs on an HA node "
+                 "(local Endpoint present) skip paused objects")
     level_text = ("Machine-checked theorems that for every configuration of a notification object (interval, times window, type/state "
                   "filters), every finite sequence of notification requests (all nine types, forced or not, during and after the cold-start "
                   "phase) and timer runs, under arbitrary environments at every step (state, state type, last hard state change, volatile, "
@@ -151,13 +164,27 @@ class C03(StdCheck):
                   "property's three sentences - without hypothesis for the first sentence (delivery_only_if), the duplicate clause "
                   "(no_duplicate_problem), the reminder conditions and spacing (reminder_only_in_hard_unsuppressed_problem, "
                   "reminder_spacing_positive_interval, reminder_spacing_rearmed) and every clause but two of the whole specification "
-                  "(model_trace_other_clauses); with the exact extra hypothesis for the two clauses the unchanged code violates "
+                  "(model_trace_other_clauses), incl. the new clause that the timer forces nothing of its own "
+                  "(forced_timer_notifications_are_owed, timer_forced_only_from_stash) and the positive half of 'forced notifications bypass "
+                  "every filter except the user's enable flag' (forced_bypasses_user_filters: a forced notification of a type without "
+                  "per-user incident rules reaches every enabled attached user); at the level of the checkable - sequences of setForce / "
+                  "attach / request / timer operations in which the force of a request is the model's flag, not an input - that every request "
+                  "consumes the flag whether or not it reaches a notification object (force_is_one_shot), that the object's view with the "
+                  "specification's own force bit (a setForce since the checkable's previous request) is a trace of the one-object model "
+                  "(checkable_trace_refines), hence the first sentence without hypothesis (delivery_only_if_checkable) and the whole "
+                  "specification under the two hypotheses (model_ctrace_meets_spec_partial); with the exact extra hypothesis for the two clauses the unchanged code violates "
                   "(recovery_ack_recipients_partial + _counterexample: F-C03b; reminder_spacing_partial + reminder_interval0_counterexample: "
                   "F-C03c; model_trace_meets_spec_partial + _counterexample); the model is tied to the code by running the real functions on "
                   "generated operation sequences and diffing events, executed commands and the bookkeeping attributes of every notification "
                   "object after every operation; the same specification is evaluated on the implementation's own trace")
     level_note = ("Trusted: Lean kernel (+ propext, Classical.choice, Quot.sound), harness/driver; checkable facts and period open/closed bits "
-                  "are oracle inputs read from the implementation. The model transcribes the code after the fix cec0506 for F-C03a (status "
+                  "are oracle inputs read from the implementation. NOT oracle inputs any more: (1) 'this request was forced' - the "
+                  "specification derives it from the observed operations (F since the checkable's previous N / q request, seen by the object "
+                  "or not), the implementation's force_next_notification is only compared with the model's flag (MISMATCH op=force); a forced "
+                  "notification out of the timer must be owed to an earlier forced request that went unanswered; (2) the notification's and "
+                  "the users' type / state filters - model and specification get the configured values of the case line, the objects get "
+                  "them as integers, as name arrays or as mixed name / number arrays through OnConfigLoaded; (3) haSkip is exercised with a "
+                  "real local Endpoint (bare ApiListener instance installed around timer runs). The model transcribes the code after the fix cec0506 for F-C03a (status "
                   "fixed). 'Current incident' is read as: it ends when the notification object sends a Recovery or discards it by its type "
                   "filter, AND when the checkable requests a Recovery that Checkable::SendNotifications drops because notifications are switched "
                   "off (the request type of every send operation is part of the observed trace) - the code keeps notified_problem_users / "
@@ -191,7 +218,11 @@ class C03(StdCheck):
     ]
     assumptions = ["integer timestamps", "the period and the checkable facts do not change during one handler run",
                    "user ids are distinct (std::set of users)"]
-    rule = ("corpus/C03/*.ops, then exhaustive: every sequence of 4 (thorough: 5) operations over {Problem, Recovery, Acknowledgement request, "
+    rule = ("corpus/C03/*.ops, then exhaustive (a'): every sequence of 4 (thorough: 5) operations over {force, detach objects, attach "
+            "objects, Problem request, Custom request, notification period close, checkable notifications off, timer +60 s} x {service / host "
+            "with two objects} x {type filter everything / Recovery only} x {objects attached / detached at the start}, followed by attach, "
+            "Problem, Acknowledgement; random cases: 15% with objects that come and go (H), 20% on an HA node (J 1) with frequent authority "
+            "changes; and exhaustive (a): every sequence of 4 (thorough: 5) operations over {Problem, Recovery, Acknowledgement request, "
             "timer +60 s, timer +1 s, hard CRITICAL, hard OK, notification period close/open, user 1 disable/enable, force} after a hard CRITICAL, "
             "followed by a fixed tail, x host (two notification objects) / service x interval {0, 60}; plus seeded random cases (10000 of <= 30 / "
             "thorough 100000 of <= 60 operations): 1-3 notification objects per checkable with random filters, times windows, intervals "
